@@ -271,6 +271,26 @@ func (g *gctx) cls(v ssa.Value) string {
 		case "builtin append":
 			return "append(" + g.cls(x.Call.Args[0]) + "," + g.cls(x.Call.Args[1]) + ")"
 		}
+		// a helper of one parameter computing an operand from the clause variable: classified by its own body, with
+		// the argument's class substituted for the helper's parameter
+		if callee := staticCallee(&x.Call); callee != nil && callee.Blocks != nil && len(x.Call.Args) == 1 && len(callee.Params) == 1 &&
+			callee.Signature.Results().Len() == 1 && callee.Pkg == g.fn.Pkg && g.depth < 8 {
+			rets := returnsOf(callee)
+			sub := newGctx(callee, map[ssa.Value]bool{callee.Params[0]: true})
+			sub.depth = g.depth
+			set := map[string]bool{}
+			for _, rt := range rets {
+				set[sub.cls(rt.Results[0])] = true
+			}
+			if len(set) == 1 {
+				for k := range set {
+					if !strings.Contains(k, "?") {
+						arg := g.cls(x.Call.Args[0])
+						return substV(k, arg)
+					}
+				}
+			}
+		}
 		return n + "()"
 	case *ssa.BinOp:
 		return "(" + g.cls(x.X) + x.Op.String() + g.cls(x.Y) + ")"
@@ -719,50 +739,62 @@ func c01MessageClause(r *Run, role string, fn *ssa.Function, c *tsClause) {
 	if len(notes) > 0 {
 		r.Bad("grammar/endianness", role+"(Message)", pos, strings.Join(notes, "; "))
 	}
-	got := map[string][]string{}
+	// events per message kind: a clause listing several kinds (pointer and value forms, or Rstat and Twstat merged
+	// when their bodies agree) attributes its events to each of them
+	got := map[string][][]string{}
+	valueForm := map[string]bool{}
 	for _, ic := range inner {
 		ev, _ := clauseEvents(fn, regionBlocks(fn, ic.body, nil), g, role)
-		names := []string{}
 		for _, t := range ic.types {
-			names = append(names, strings.TrimPrefix(strings.TrimPrefix(shortType(t), "*"), "p9p."))
+			st := shortType(t)
+			name := strings.TrimPrefix(strings.TrimPrefix(st, "*"), "p9p.")
+			got[name] = append(got[name], ev)
+			if !strings.HasPrefix(st, "*") {
+				valueForm[name] = true
+			}
 		}
-		sort.Strings(names)
-		got[strings.Join(names, ",")] = ev
 	}
 	want := map[string]map[string][]string{
 		"encode": {
-			"MessageRstat,MessageRstat":   {"E(size16(fields9p(v)...))"},
-			"MessageTwstat,MessageTwstat": {"E(fields9p(v)[0])", "E(size16(fields9p(v)[1:]...))"},
-			"tail":                        {"E(fields9p(v)|fields9p(v)[1:]...)"},
+			"MessageRstat":  {"E(size16(fields9p(v)...))"},
+			"MessageTwstat": {"E(fields9p(v)[0])", "E(size16(fields9p(v)[1:]...))"},
+			"tail":          {"E(fields9p(v)|fields9p(v)[1:]...)"},
 		},
 		"decode": {
-			"MessageRstat,MessageRstat":   {"D(&ll:uint16)"},
-			"MessageTwstat,MessageTwstat": {"D(fields9p(v)[0])", "D(&ll:uint16)"},
-			"tail":                        {"D(fields9p(v)|fields9p(v)[1:]...)"},
+			"MessageRstat":  {"D(&ll:uint16)"},
+			"MessageTwstat": {"D(fields9p(v)[0])", "D(&ll:uint16)"},
+			"tail":          {"D(fields9p(v)|fields9p(v)[1:]...)"},
 		},
 		"size": {
-			"MessageRstat,MessageRstat":   {"ADD(S(zero:uint16))"},
-			"MessageTwstat,MessageTwstat": {"ADD(S(zero:uint16))"},
-			"tail":                        {"ADD(S(fields9p(v)...))"},
+			"MessageRstat":  {"ADD(S(zero:uint16))"},
+			"MessageTwstat": {"ADD(S(zero:uint16))"},
+			"tail":          {"ADD(S(fields9p(v)...))"},
 		},
 	}[role]
-	got["tail"] = tail
+	got["tail"] = [][]string{tail}
+	valueForm["tail"] = true
 	keys := []string{}
 	for k := range want {
 		keys = append(keys, k)
 	}
 	sort.Strings(keys)
 	for _, k := range keys {
-		key := fmt.Sprintf("%s(Message) %s", role, strings.Split(k, ",")[0])
+		key := fmt.Sprintf("%s(Message) %s", role, k)
 		g2, ok := got[k]
-		if !ok {
-			r.Bad("grammar/layout", key, pos, "no special case for "+k+": the extra size[2] of the stat record is not handled")
+		if !ok || !valueForm[k] {
+			r.Bad("grammar/layout", key, pos, "no special case for "+k+" (value form): the extra size[2] of the stat record is not handled")
 			continue
 		}
-		if strings.Join(canonEvents(role, g2), " ") == strings.Join(canonEvents(role, want[k]), " ") {
-			r.Ok("grammar/layout", key, pos, strings.Join(g2, " "))
+		bad := ""
+		for _, ev := range g2 {
+			if strings.Join(canonEvents(role, ev), " ") != strings.Join(canonEvents(role, want[k]), " ") {
+				bad = strings.Join(ev, " ")
+			}
+		}
+		if bad == "" {
+			r.Ok("grammar/layout", key, pos, strings.Join(g2[0], " "))
 		} else {
-			r.Bad("grammar/layout", key, pos, "performs ["+strings.Join(g2, " ")+"], expected ["+strings.Join(want[k], " ")+"]")
+			r.Bad("grammar/layout", key, pos, "performs ["+bad+"], expected ["+strings.Join(want[k], " ")+"]")
 		}
 	}
 	for k := range got {
@@ -872,6 +904,7 @@ func zeroSize(a string) (string, bool) {
 func canonEvents(role string, ev []string) []string {
 	var out []string
 	for _, e := range ev {
+		e = stripIntWrap(e)
 		star := ""
 		if strings.HasPrefix(e, "*") {
 			star, e = "*", e[1:]
@@ -937,4 +970,55 @@ func canonEvents(role string, ev []string) []string {
 		sort.Strings(out)
 	}
 	return out
+}
+
+// substV replaces the clause-variable token v of a class string by arg (tokens are delimited by non-identifier characters).
+func substV(k, arg string) string {
+	var b strings.Builder
+	isId := func(c byte) bool {
+		return c == '_' || c >= 'a' && c <= 'z' || c >= 'A' && c <= 'Z' || c >= '0' && c <= '9'
+	}
+	for i := 0; i < len(k); i++ {
+		if k[i] == 'v' && (i == 0 || !isId(k[i-1])) && (i+1 == len(k) || !isId(k[i+1])) {
+			b.WriteString(arg)
+			continue
+		}
+		b.WriteByte(k[i])
+	}
+	return b.String()
+}
+
+// stripIntWrap removes value-preserving int(...) wrappers (widening of a narrower unsigned wire value) from a class string.
+func stripIntWrap(s string) string {
+	isId := func(c byte) bool {
+		return c == '_' || c >= 'a' && c <= 'z' || c >= 'A' && c <= 'Z' || c >= '0' && c <= '9'
+	}
+	for {
+		i := -1
+		for j := 0; j+4 <= len(s); j++ {
+			if s[j:j+4] == "int(" && (j == 0 || !isId(s[j-1])) {
+				i = j
+				break
+			}
+		}
+		if i < 0 {
+			return s
+		}
+		depth, end := 0, -1
+		for j := i + 3; j < len(s); j++ {
+			if s[j] == '(' {
+				depth++
+			} else if s[j] == ')' {
+				depth--
+				if depth == 0 {
+					end = j
+					break
+				}
+			}
+		}
+		if end < 0 {
+			return s
+		}
+		s = s[:i] + s[i+4:end] + s[end+1:]
+	}
 }
